@@ -567,6 +567,85 @@ fn direct_sub(fam: Fam, maxlen: u32) -> Sub {
 // ---------------------------------------------------------------------------
 // Lookups: DebugAddr::get_address, RangeLists::get_offset, LocationLists::get_offset
 
+/// Location list entries whose expression is long: the length field of a `.debug_loclists` entry
+/// is a ULEB128, of a `.debug_loc` entry two bytes.
+fn long_expr_sub() -> Sub {
+    let lens: [usize; 9] = [0, 127, 128, 16383, 16384, 65534, 65535, 65536, 100000];
+    Sub::new(
+        "location-expression-lengths",
+        lens.len() as u64 * 2 * 2 * 2,
+        "one DW_LLE_offset_pair entry (v5) / one address pair (.debug_loc, lengths up to 65535) whose expression has {0,127,128,16383,16384,65534,65535,65536,100000} bytes, followed by a second entry and the end of the list, x format x address size {4,8} x byte order: raw and resolved iteration give both entries with exactly the encoded expression bytes",
+        move |ctx, i| {
+            let mut mx = mcx::space::Mix(i);
+            let big = mx.flag();
+            let fmt64 = mx.flag();
+            let size = if mx.flag() { 8u8 } else { 4 };
+            let len = *mx.pick(&lens);
+            let en = endian(big);
+            let expr: Vec<u8> = (0..len).map(|k| 0x30 + (k % 32) as u8).collect();
+            let tail = [0x51u8];
+            for v5 in [true, false] {
+                if !v5 && len > 65535 {
+                    ctx.outcome("long-expr:not-encodable-in-debug_loc");
+                    continue;
+                }
+                let mut body = Enc::new(big);
+                if v5 {
+                    body.u8(0x04).uleb(0x10).uleb(0x20).uleb(len as u64).bytes(&expr);
+                    body.u8(0x04).uleb(0x30).uleb(0x40).uleb(1).bytes(&tail);
+                    body.u8(0x00);
+                } else {
+                    body.addr(0x10, size).addr(0x20, size).u16(len as u16).bytes(&expr);
+                    body.addr(0x30, size).addr(0x40, size).u16(1).bytes(&tail);
+                    body.addr(0, size).addr(0, size);
+                }
+                let (sec, off) = if v5 { (m::lists_contribution(big, fmt64, size, &[], &body.buf), m::lists_header_size(fmt64) as usize) } else { (body.buf.clone(), 0) };
+                let empty: [u8; 0] = [];
+                let lists = if v5 { LocationLists::new(DebugLoc::new(&empty, en), DebugLocLists::new(&sec, en)) } else { LocationLists::new(DebugLoc::new(&sec, en), DebugLocLists::new(&empty, en)) };
+                let encoding = Encoding { address_size: size, format: fmt(fmt64), version: if v5 { 5 } else { 4 } };
+                let case = || format!("{} expression of {} bytes, format {} address size {} {}", if v5 { ".debug_loclists" } else { ".debug_loc" }, len, if fmt64 { 64 } else { 32 }, size, if big { "BE" } else { "LE" });
+                ctx.eval(2);
+                let r = guard(|| -> Result<(), String> {
+                    let mut raw = lists.raw_locations(LocationListsOffset(off), encoding).map_err(|e| format!("raw_locations: {}", e))?;
+                    let mut datas: Vec<Vec<u8>> = vec![];
+                    while let Some(e) = raw.next().map_err(|e| format!("raw entry {}: {}", datas.len(), e))? {
+                        let d = match e {
+                            RawLocListEntry::OffsetPair { data, .. } | RawLocListEntry::AddressOrOffsetPair { data, .. } => data.0.slice().to_vec(),
+                            other => return Err(format!("raw entry {} is {:?}", datas.len(), other)),
+                        };
+                        datas.push(d);
+                        if datas.len() > 4 {
+                            return Err("raw iteration does not end".into());
+                        }
+                    }
+                    if datas != vec![expr.clone(), tail.to_vec()] {
+                        return Err(format!("raw entries carry expressions of {:?} bytes, expected [{}, 1]", datas.iter().map(|d| d.len()).collect::<Vec<_>>(), len));
+                    }
+                    let da = DebugAddr::from(EndianSlice::new(&empty, en));
+                    let mut it = lists.locations(LocationListsOffset(off), encoding, 0x1000, &da, DebugAddrBase(0)).map_err(|e| format!("locations: {}", e))?;
+                    let mut got = vec![];
+                    while let Some(l) = it.next().map_err(|e| format!("entry {}: {}", got.len(), e))? {
+                        got.push((l.range.begin, l.range.end, l.data.0.slice().to_vec()));
+                        if got.len() > 4 {
+                            return Err("iteration does not end".into());
+                        }
+                    }
+                    if got != vec![(0x1010, 0x1020, expr.clone()), (0x1030, 0x1040, tail.to_vec())] {
+                        return Err(format!("resolved entries {:?}", got.iter().map(|g| (g.0, g.1, g.2.len())).collect::<Vec<_>>()));
+                    }
+                    Ok(())
+                });
+                match r {
+                    Err(p) => return m::fail_panic(ctx, "LocationLists::locations", &p, case()),
+                    Ok(Err(e)) => return ctx.fail("LocationLists::raw_locations", "expression-length", "wrong-entries", format!("{}: {}", case(), e)),
+                    Ok(Ok(())) => ctx.outcome("long-expr:ok"),
+                }
+            }
+            ctx.nontriv(1);
+        },
+    )
+}
+
 fn lookup_sub() -> Sub {
     // size x fmt64 x big x far x index(0..=6) x which(addr, rng, loc)
     let len = 4 * 2 * 2 * 3 * 8;
@@ -1760,6 +1839,7 @@ pub fn def(tier: Tier) -> CheckDef {
     }
     subs.push(direct_sub(Fam::GnuLle, tier.pick(3, 5)));
     subs.push(lookup_sub());
+    subs.push(long_expr_sub());
     subs.push(plumb_sub(false, tier.pick(2, 3), quick));
     subs.push(plumb_sub(true, tier.pick(2, 3), quick));
     subs.push(die_sub());
